@@ -42,10 +42,11 @@ structure Data where
   serial : Array Nat
   counter : Nat
   next : Nat
+  md : Nat   -- 1 + largest definition id seen (cached)
 
 def Data.empty : Data :=
   { vals := #[], assigned := #[], backup := #[], cache := #[], cacheBk := #[], grid := #[], gridBk := #[],
-    dassigned := #[], dbackup := #[], defs := #[], readOnly := #[], serial := #[], counter := 0, next := 0 }
+    dassigned := #[], dbackup := #[], defs := #[], readOnly := #[], serial := #[], counter := 0, next := 0, md := 1 }
 
 def inject (d : Data) : St :=
   { vals := fun o x => (d.vals.getD o #[]).getD x 0
@@ -66,7 +67,7 @@ def inject (d : Data) : St :=
 def extract (s : St) (old : Data) (touched : List Nat) : Data :=
   let n := s.next
   let rng := Array.range n
-  let md := (List.range n).foldl (fun m o => max m ((s.defs o).foldl max 0)) (old.dassigned.size) + 1
+  let md := ((List.range (n - old.next)).map (· + old.next)).foldl (fun m o => max m ((s.defs o).foldl max 0 + 1)) (max old.md old.dassigned.size)
   { vals := rng.map (fun o =>
       if o ∈ touched ∨ o ≥ old.vals.size then (Array.range ((s.defs o).foldl max 0 + 1)).map (fun x => s.vals o x)
       else old.vals.getD o #[])
@@ -82,7 +83,8 @@ def extract (s : St) (old : Data) (touched : List Nat) : Data :=
     readOnly := rng.map (fun o => s.readOnly o)
     serial := rng.map (fun o => s.serial o)
     counter := s.counter
-    next := n }
+    next := n
+    md := md }
 
 def touchedOf (s : St) (ws : List String) : List Nat :=
   match ws with
